@@ -312,7 +312,7 @@ class MagicNumberRule(MultiLanguageLintRule):  # thailint: ignore[srp]
         if "# thailint: ignore" not in line_text:
             return False
         after_ignore = line_text.split("# thailint: ignore")[1].split("#")[0]
-        return "[" not in after_ignore
+        return "[" not in after_ignore and not after_ignore.startswith("-")
 
     def _check_typescript(
         self, context: BaseLintContext, config: MagicNumberConfig
